@@ -1,8 +1,8 @@
 package rules
 
 import (
-	"go/token"
 	"go/constant"
+	"go/token"
 	"sort"
 	"strings"
 
@@ -46,7 +46,10 @@ func checkC09(r *Report, p *Program) {
 	r09_tables(r, p, "R09.12")
 	r09_recordSet(r, p, "R09.13")
 	claimKeepTable(r, p, "R09.14")
+	claimsTables(r, p, "R09.17")
 	revisionLabelsAgree(r, p, "R09.15")
+	// building a revision (its name is cut to length) cannot panic the worker
+	constantSlicesBounded(r, p, "R09.16", 1)
 	// a failed claim / revision write stops the sync before children are reconciled from an incomplete view (R12.1 on the revision code)
 	errorRule(r, p, "R09.9", 8, func(f *ssa.Function) bool {
 		file := p.File(f)
@@ -841,14 +844,37 @@ func revisionLabelsAgree(r *Report, p *Program, rule string) {
 	if nf == nil || ms == nil {
 		return
 	}
-	gen := func(l Lit) bool { return strings.Contains(l.Atom, "parentController.isUsingGeneratedLabelSelector)(p0)") }
+	// 'the selector is generated', on the helper call or on the inlined `p != nil && *p` form
+	genPos := func(l Lit) bool {
+		if strings.Contains(l.Atom, "parentController.isUsingGeneratedLabelSelector)(p0)") {
+			return l.Pos
+		}
+		if strings.Contains(l.Atom, ".GenerateSelector") {
+			if _, _, isT := l.NilTest(); !isT {
+				return l.Pos
+			}
+		}
+		return false
+	}
+	genNeg := func(l Lit) bool {
+		if strings.Contains(l.Atom, "parentController.isUsingGeneratedLabelSelector)(p0)") {
+			return !l.Pos
+		}
+		if strings.Contains(l.Atom, ".GenerateSelector") {
+			if _, isNil, isT := l.NilTest(); isT {
+				return isNil
+			}
+			return !l.Pos
+		}
+		return false
+	}
 	ok, why := true, ""
 	nUID, nTpl := 0, 0
 	for _, b := range nf.Blocks {
 		for _, in := range b.Instrs {
 			if mu, isMU := in.(*ssa.MapUpdate); isMU && E(mu.Key) == `"controller-uid"` {
 				nUID++
-				if unguarded(nf, nil, in, func(l Lit) bool { return l.Pos && gen(l) }) != nil {
+				if unguarded(nf, nil, in, genPos) != nil {
 					ok, why = false, "the revision is labelled controller-uid although the controller does not select by it"
 				}
 				if !strings.Contains(E(mu.Value), "GetUID)(p1)") {
@@ -857,7 +883,7 @@ func revisionLabelsAgree(r *Report, p *Program, rule string) {
 			}
 			if isCallTo(in, "unstructured.NestedStringMap") {
 				nTpl++
-				if unguarded(nf, nil, in, func(l Lit) bool { return !l.Pos && gen(l) }) != nil {
+				if unguarded(nf, nil, in, genNeg) != nil {
 					ok, why = false, "the revision takes the parent's template labels although the controller selects by controller-uid"
 				}
 			}
@@ -870,7 +896,7 @@ func revisionLabelsAgree(r *Report, p *Program, rule string) {
 	for _, cs := range callsTo(ms, false, "meta/v1.AddLabelToSelector") {
 		if E(cs.Common().Args[1]) == `"controller-uid"` {
 			nSel++
-			if unguarded(ms, nil, cs.Instr.(ssa.Instruction), func(l Lit) bool { return l.Pos && gen(l) }) != nil {
+			if unguarded(ms, nil, cs.Instr.(ssa.Instruction), genPos) != nil {
 				ok, why = false, "makeSelector selects by controller-uid without a generated selector"
 			}
 			if !strings.Contains(E(cs.Common().Args[2]), "GetUID)(p1)") {
@@ -879,7 +905,7 @@ func revisionLabelsAgree(r *Report, p *Program, rule string) {
 		}
 	}
 	for _, cs := range callsTo(ms, false, "GetNestedFieldInto") {
-		if unguarded(ms, nil, cs.Instr.(ssa.Instruction), func(l Lit) bool { return !l.Pos && gen(l) }) != nil {
+		if unguarded(ms, nil, cs.Instr.(ssa.Instruction), genNeg) != nil {
 			ok, why = false, "makeSelector reads the parent's selector although the selector is generated"
 		}
 	}
@@ -887,4 +913,130 @@ func revisionLabelsAgree(r *Report, p *Program, rule string) {
 		ok, why = false, "makeSelector does not select by controller-uid exactly once"
 	}
 	r.Check(rule, FK(nf)+"↔makeSelector", p.Pos(nf.Pos()), ok, "same polarity, same UID", why)
+}
+
+// claimsTables: syncRevisionClaims' two filters and the gate's kind filter, both directions.
+func claimsTables(r *Report, p *Program, rule string) {
+	r.Rule(rule, "syncRevisionClaims: a recorded name stays claimed ⇔ the latest revision still desires it ∧ no earlier revision in the list claimed it; a kind's entry stays ⇔ the kind is rolling ∧ names are left. shouldContinueRolling: the names of a kind are health-checked ⇔ the kind's strategy is rolling")
+	r.Floor(rule, 3)
+	if f := fn(r, p, rule, "controller/composite.parentController.syncRevisionClaims"); f != nil {
+		var kinds, names *engine.RangeLoop
+		for _, l := range engine.RangeLoops(f) {
+			switch {
+			case strings.HasSuffix(E(l.X), ".revision.Children"):
+				kinds = l
+			case strings.HasSuffix(E(l.X), ".Names"):
+				names = l
+			}
+		}
+		if kinds == nil || names == nil {
+			r.Check(rule, FK(f), p.Pos(f.Pos()), false, "", "the loops over a revision's kinds and names were not found")
+		} else {
+			// per name
+			paths, err := engine.EnumPaths(f, engine.EnumOpts{Start: names.Body, Leave: func(b *ssa.BasicBlock) bool { return b == names.Header || b == names.Exit },
+				Effect: func(in ssa.Instruction) bool {
+					if mu, isMU := in.(*ssa.MapUpdate); isMU {
+						return strings.Contains(mu.Value.Type().String(), "parentRevision") && !strings.Contains(mu.Value.Type().String(), "map[")
+					}
+					c, isC := in.(*ssa.Call)
+					return isC && isCallTo(in, "builtin.append") && c.Type().String() == "[]string"
+				}})
+			ok, why := err == nil, ""
+			for _, pa := range paths {
+				desired := -val(pa, -1, func(a string) bool {
+					return strings.Contains(a, "RelativeObjectMap.FindGroupKindName)(p1[0].desiredChildMap") && strings.HasSuffix(a, " == nil)")
+				})
+				taken := 0
+				for _, lt := range pa.Lits {
+					if lk, isL := lt.Cond.(*ssa.Extract); isL && lk.Index == 1 {
+						if _, isLookup := lk.Tuple.(*ssa.Lookup); isLookup {
+							taken = -1
+							if lt.Pos {
+								taken = 1
+							}
+						}
+					}
+				}
+				nClaim, nKeep := 0, 0
+				for _, e := range pa.Effects {
+					if _, isMU := e.(*ssa.MapUpdate); isMU {
+						nClaim++
+					} else {
+						nKeep++
+					}
+				}
+				want := 0
+				if desired == 1 && taken == -1 {
+					want = 1
+				}
+				if nClaim != want || nKeep != want {
+					ok, why = false, sf("with still-desired=%d claimed-by-earlier=%d a name is claimed %d× and kept %d× (want %d)", desired, taken, nClaim, nKeep, want)
+				}
+				if want == 0 && !(desired == -1 || taken == 1) {
+					ok, why = false, "a recorded name is dropped without being found undesired or already claimed; path: " + pa.Cond()
+				}
+			}
+			r.Check(rule, FK(f)+"[name-kept⇔desired∧unclaimed]", p.Pos(f.Pos()), ok, "per-name filter", why)
+			// per kind: the entry is appended ⇔ rolling ∧ len(names) != 0
+			ok, why = true, ""
+			var app ssa.Instruction
+			for _, b := range kinds.BodyBlocks() {
+				if names.InBody(b) {
+					continue
+				}
+				for _, in := range b.Instrs {
+					if c, isC := in.(*ssa.Call); isC && isCallTo(in, "builtin.append") && strings.Contains(c.Type().String(), "ControllerRevisionChildren") {
+						app = in
+					}
+				}
+			}
+			rolling := func(l Lit) bool { return strings.Contains(l.Atom, "updateStrategyMap.isRolling)(p0.updateStrategy") }
+			empty := func(l Lit) bool {
+				return strings.HasPrefix(l.Atom, "(call(builtin.len)(") && strings.HasSuffix(l.Atom, " == 0)") && strings.Contains(l.Atom, "builtin.append")
+			}
+			if app == nil {
+				ok, why = false, "no kind entry is kept"
+			} else {
+				if unguarded(f, []engine.Point{{B: kinds.Body}}, app, func(l Lit) bool { return l.Pos && rolling(l) }) != nil {
+					ok, why = false, "the claims of a kind that no longer uses a rolling strategy are kept"
+				}
+				// (keeping an entry whose names are all gone changes nothing — it claims no child and the revision is
+				// pruned by its child count — so that direction is not demanded)
+				if w := (engine.Query{Fn: f, From: []engine.Point{{B: kinds.Body}}, Target: func(in ssa.Instruction) bool { return in.Block() == kinds.Header },
+					CutInstr: func(in ssa.Instruction) bool { return in == app },
+					CutEdge: func(b *ssa.BasicBlock, i int, l *Lit) bool {
+						return l != nil && (!l.Pos && rolling(*l) || l.Pos && empty(*l))
+					}}).Find(); w != nil {
+					ok, why = false, "a rolling kind that still has claimed names loses its entry: the children fall back to the latest revision at once"
+				}
+			}
+			r.Check(rule, FK(f)+"[kind-kept⇔rolling∧names-left]", p.Pos(f.Pos()), ok, "per-kind filter", why)
+		}
+	}
+	if g := fn(r, p, rule, "controller/composite.parentController.shouldContinueRolling"); g != nil {
+		var outer, inner *engine.RangeLoop
+		for _, l := range engine.RangeLoops(g) {
+			switch {
+			case strings.HasSuffix(E(l.X), ".revision.Children"):
+				outer = l
+			case strings.HasSuffix(E(l.X), ".Names"):
+				inner = l
+			}
+		}
+		ok, why := outer != nil && inner != nil, "the gate's loops over kinds and names were not found"
+		if ok {
+			rolling := func(l Lit) bool {
+				return strings.Contains(l.Atom, "composite.isRollingStrategy)(") || strings.Contains(l.Atom, "updateStrategyMap.isRolling)(")
+			}
+			if unguarded(g, []engine.Point{{B: outer.Body}}, inner.Header.Instrs[0], func(l Lit) bool { return l.Pos && rolling(l) }) != nil {
+				ok, why = false, "children of a kind without a rolling strategy hold the rollout back"
+			}
+			if w := (engine.Query{Fn: g, From: []engine.Point{{B: outer.Body}}, Target: func(in ssa.Instruction) bool { return in.Block() == outer.Header },
+				CutInstr: func(in ssa.Instruction) bool { return in.Block() == inner.Header },
+				CutEdge:  func(b *ssa.BasicBlock, i int, l *Lit) bool { return l != nil && !l.Pos && rolling(*l) }}).Find(); w != nil {
+				ok, why = false, "the children of a rolling kind are not health-checked: the rollout proceeds over unhealthy children"
+			}
+		}
+		r.Check(rule, FK(g)+"[rolling-kinds-checked]", p.Pos(g.Pos()), ok, "checked ⇔ rolling", why)
+	}
 }
